@@ -5,6 +5,7 @@ import (
 	"bytes"
 	"fmt"
 	"log/slog"
+	"os"
 	"testing"
 
 	"pgregory.net/rapid"
@@ -190,6 +191,9 @@ var _ = stats.Register(R, "single-bit", check)
 // frames (payload 1..maxL) placed between two neighbours.
 func TestSingleBit(t *testing.T) {
 	maxL := 40
+	if os.Getenv("VERIF_TIER") == "thorough" {
+		maxL = 100
+	}
 	left := enc.Frame(enc.PayloadWithType(1005, 19, []byte{0x11, 0xD3}))
 	right := enc.Frame(enc.PayloadWithType(1077, 12, []byte{0xD3, 0x22}))
 	n := 0
